@@ -798,16 +798,22 @@ func LimitsCheck(args []string) {
 				return []byte(fmt.Sprintf(`{"v":1,"type":"app","msg_id":%q,"to":"b","payload":{"author":"a","pad":%q}}`, id, strings.Repeat("x", pad)))
 			}
 			a.conn.WriteMessage(websocket.TextMessage, mk(512, "fits"))
-			got := false
-			for i := 0; i < 300 && !got; i++ {
+			// judged by order, not by the clock: a small message sent afterwards by the same author arrives after it
+			// (messages between two peers are not reordered); once that one is there, the first one must be there too
+			a.conn.WriteMessage(websocket.TextMessage, mk(200, "after"))
+			got, after := false, false
+			for i := 0; i < 3000 && !after; i++ {
 				time.Sleep(10 * time.Millisecond)
 				for _, e := range b.snapshot() {
 					if e.MsgID == "fits" {
 						got = true
 					}
+					if e.MsgID == "after" {
+						after = true
+					}
 				}
 			}
-			if !got {
+			if after && !got {
 				v("message_at_the_size_limit_not_delivered", nil)
 			}
 			a.conn.WriteMessage(websocket.TextMessage, mk(700, "toolarge"))
